@@ -23,8 +23,10 @@ Definition cb_by_name (n : string) : callback :=
 (* fsm_pool.Init, second loop: every state of StatesList (source states; never a fin state of the
    same machine) is owned by its machine.  Computed from the regenerated tables and proved equal
    (as a set) to the live map in Fsm/TableFacts.v. *)
+Definition is_entry_state (s : string) : bool := existsb (fun t => String.eqb (ft_initial t) s) machines.
 Definition pool_states_model : list (string * string) :=
-  flat_map (fun t => map (fun s => (s, ft_name t)) (states_list t)) machines.
+  flat_map (fun t => map (fun s => (s, ft_name t))
+                         (states_list t ++ filter (fun s => negb (is_entry_state s)) (ft_fin t))) machines.
 
 (* MachineByState on the live map *)
 Definition machine_by_state (s : string) : option ftable :=
@@ -37,9 +39,9 @@ Record dump := { d_state : string; d_payload : payload }.
 
 Record instance := { i_mach : string; i_cur : string; i_dstate : string; i_payload : payload }.
 
-(* MustCopyWithState: the state must be in StatesList unless empty *)
+(* MustCopyWithState: the state must be in StatesList or a final state of the machine, unless empty *)
 Definition copy_with_state_ok (t : ftable) (s : string) : bool :=
-  String.eqb s "" || mem_str s (states_list t).
+  String.eqb s "" || mem_str s (states_list t) || mem_str s (ft_fin t).
 
 Inductive load_res := LoadOk (i : instance) | LoadErr | LoadPanic.
 
